@@ -781,7 +781,7 @@ Lemma not_cached_silent pc : forall l s seen,
 Proof.
   induction l as [|e l IH]; intros s seen Hc; [cbn; auto|].
   rewrite p_run_cons. cbn [fst snd].
-  destruct e as [i t pid fd r|i ok v|]; cbn [p_step].
+  destruct e as [i t pid fd r lc|i ok v|]; cbn [p_step].
   - unfold p_ack. rewrite Hc. cbn [negb fst snd app accept_first].
     apply IH. exact Hc.
   - unfold p_set. rewrite Hc. cbn [negb fst snd app accept_first].
@@ -797,7 +797,7 @@ Fixpoint ack_first (cancel_ok : bool) (l : list pev) : bool :=
   match l with
   | [] => true
   | PCancel :: r => cancel_ok && ack_first cancel_ok r
-  | PAck _ _ _ _ _ :: _ => true
+  | PAck _ _ _ _ _ _ :: _ => true
   | PReady _ _ _ :: _ => false
   end.
 
@@ -812,7 +812,7 @@ Theorem parent_accept_before_result pc : has_accept_cb pc = true ->
 Proof.
   intros Hcb. induction l as [|e l IH]; intros s Hs Hl; [reflexivity|].
   rewrite p_run_cons. cbn [snd].
-  destruct e as [i t pid fd r|i ok v|]; cbn [ack_first] in Hl; [| discriminate |].
+  destruct e as [i t pid fd r lc|i ok v|]; cbn [ack_first] in Hl; [| discriminate |].
   - cbn [p_step]. unfold p_ack. destruct (in_cache s) eqn:Hc; cbn [negb].
     + assert (Hn : cancelled s && has_send_ack pc = false)
         by (destruct Hs as [-> | ->]; [reflexivity|apply andb_false_r]).
@@ -827,9 +827,9 @@ Qed.
 
 (* The first ACK processed for a live, not-refused job: ownership is recorded from the
    ACK's own fields, before the accept callback, and the callback gets the same values *)
-Theorem parent_ack_records_owner pc s t pid fd r :
+Theorem parent_ack_records_owner pc s t pid fd r lc :
   in_cache s = true -> cancelled s && has_send_ack pc = false ->
-  let (s', o) := p_ack pc s t pid fd r in
+  let (s', o) := p_ack pc s t pid fd r lc in
   accepted s' = true /\ worker_pid s' = Some pid /\ time_accepted s' = Some t /\
   (has_accept_cb pc = true -> exists rest, o = OTimeoutSet :: OCbAccept pid t :: rest) /\
   (has_accept_cb pc = true -> r = false -> has_send_ack pc = true ->
@@ -844,9 +844,9 @@ Qed.
 
 (* A job cancelled before its ACK is processed, with the handshake enabled: the parent
    answers NACK to the pid and fd of the ACK, runs no callback and records no owner *)
-Theorem parent_cancelled_refuses pc s t pid fd r f :
+Theorem parent_cancelled_refuses pc s t pid fd r lc f :
   in_cache s = true -> cancelled s = true -> has_send_ack pc = true -> fd_truthy fd = Some f ->
-  p_ack pc s t pid fd r =
+  p_ack pc s t pid fd r lc =
   (mk_ar true true (worker_pid s) (time_accepted s) (is_ready s) true, [OSendAck NACK pid f]).
 Proof.
   intros Hc Hx Hs Hf. unfold p_ack. rewrite Hc, Hx, Hs, Hf. reflexivity.
@@ -858,13 +858,13 @@ Theorem cancelled_job_not_run pc s c n q rest k f :
   in_cache s = true -> cancelled s = true -> has_send_ack pc = true ->
   has_syn c = true -> fd_truthy (synfd c) = Some f ->
   guard (maxtasks c) n = true -> task_ok (q_ty q) = true ->
-  forall resp, snd (p_ack pc s (q_t q) (eff_pid c) (synfd c) false) = [OSendAck resp (eff_pid c) f] ->
+  forall resp, snd (p_ack pc s (q_t q) (eff_pid c) (synfd c) false false) = [OSendAck resp (eff_pid c) f] ->
   q_syn q = repeat RTimeout k ++ [RMsg resp] ->
   loop c n (RMsg q :: rest) = pre (accept_events c q) (loop c n rest)
   /\ runs (accept_events c q) = O /\ puts (accept_events c q) = [ack_msg c q].
 Proof.
   intros Hc Hx Hs Hsyn Hf G Hty resp Hresp Hq.
-  rewrite (parent_cancelled_refuses pc s _ _ _ _ f Hc Hx Hs Hf) in Hresp. cbn [snd] in Hresp.
+  rewrite (parent_cancelled_refuses pc s _ _ _ _ _ f Hc Hx Hs Hf) in Hresp. cbn [snd] in Hresp.
   inversion Hresp as [Hr]. subst resp. split; [|split; [apply runs_accept|apply puts_accept]].
   apply nack_step; [exact G|exact Hty|].
   unfold syn_result. rewrite Hsyn, Hq, wait_for_syn_timeouts. reflexivity.
@@ -877,12 +877,12 @@ Lemma block_puts_ack_first c q J :
 Proof.
   unfold block. cbn [puts flat_map].
   destruct (q_job q =? J) eqn:E.
-  - unfold pev_of at 1. cbn [ack_msg m_job m_pl m_ty]. rewrite E.
+  - unfold pev_of, pev_of_x at 1. cbn [ack_msg m_job m_pl m_ty]. rewrite E.
     change (ACK =? ACK) with true. reflexivity.
-  - unfold pev_of at 1. cbn [ack_msg m_job m_pl m_ty]. rewrite E. cbn [app].
+  - unfold pev_of, pev_of_x at 1. cbn [ack_msg m_job m_pl m_ty]. rewrite E. cbn [app].
     destruct (confirmed c q); cbn [puts flat_map]; [|reflexivity].
     destruct (escapes q); cbn [puts flat_map]; [reflexivity|].
-    unfold pev_of. cbn [ready_msg m_job m_pl m_ty]. rewrite E. reflexivity.
+    unfold pev_of, pev_of_x. cbn [ready_msg m_job m_pl m_ty]. rewrite E. reflexivity.
 Qed.
 
 Lemma puts_proto l : puts (proto l) = puts l.
@@ -969,7 +969,7 @@ Qed.
 
 (* ownership: the recorded pid is always the pid carried by this worker's ACKs *)
 Definition acks_from (P : Z) (e : pev) : Prop :=
-  match e with PAck _ _ pid _ _ => pid = P | _ => True end.
+  match e with PAck _ _ pid _ _ _ => pid = P | _ => True end.
 
 Lemma p_run_owner pc P : forall l s,
     Forall (acks_from P) l ->
@@ -979,7 +979,7 @@ Proof.
   induction l as [|e l IH]; intros s HF Hs; [exact Hs|].
   rewrite p_run_cons. cbn [fst]. inversion HF as [|e' l' He Hl]; subst.
   apply IH; [exact Hl|].
-  destruct e as [i t pid fd r|i ok v|]; cbn [p_step acks_from] in *.
+  destruct e as [i t pid fd r lc|i ok v|]; cbn [p_step acks_from] in *.
   - unfold p_ack. destruct (negb (in_cache s)); [exact Hs|].
     destruct (cancelled s && has_send_ack pc); [exact Hs|].
     destruct (has_accept_cb pc && r); cbn [fst worker_pid]; right; f_equal; exact He.
@@ -1006,7 +1006,7 @@ Proof.
   apply forall_uncancel. rewrite Hl. apply Forall_forall. intros e He.
   apply in_flat_map in He. destruct He as [m [Hm He]].
   destruct (worker_stream_messages c ins n m Hm) as [q [_ [-> | ->]]];
-    unfold pev_of in He; cbn [ack_msg ready_msg m_job m_pl m_ty] in He;
+    unfold pev_of, pev_of_x in He; cbn [ack_msg ready_msg m_job m_pl m_ty] in He;
       destruct (q_job q =? J); try contradiction.
   - change (ACK =? ACK) with true in He. destruct He as [<-|[]]. reflexivity.
   - change (READY =? READY) with true in He. destruct He as [<-|[]].
